@@ -43,7 +43,7 @@ func runC16(seed uint64, n int, tier string, outDir string) []*Stats {
 		defer os.RemoveAll(root)
 	}
 	r := NewRng(seed)
-	cf := NewCoqFile("From V Require Import Common.Base C16.Checked C16.Wtf8 C16.Vlq16 C16.CssNum C16.Packet C16.Pieces C16.CssIdent C16.Harness.")
+	cf := NewCoqFile("From V Require Import Common.Base C16.Checked C16.Wtf8 C16.Vlq16 C16.CssNum C16.Packet C16.Pieces C16.CssIdent C16.JsxEntities C16.Harness.")
 	st := NewStats("c16", seed)
 	corpus, err := ExtractCorpus(repoDir())
 	if err != nil {
@@ -55,6 +55,7 @@ func runC16(seed uint64, n int, tier string, outDir string) []*Stats {
 	runDecoders(r, n, st, cf, corpus)
 	runDecoders2(r, n, st, cf)
 	runPacketProbe(r, n/2, st, cf)
+	runJSXEntities(r, n, st, cf)
 	st.Finish("distinct input bytes AND (non-ASCII / multi-unit / error path / boundary) per decoder family")
 	if err := os.WriteFile(filepath.Join(outDir, "c16_cases.v"), []byte(cf.String()), 0o644); err != nil {
 		panic(err)
@@ -174,6 +175,7 @@ func genSearchCases(r *Rng, count int, corpus map[string][]Seed) []*Case {
 	grid(jsTails, []string{"js", "tsx"})
 	grid(cssTails, []string{"css", "local-css"})
 	grid(jsonTails, []string{"json"})
+	atomGrid(r, corpus, mk)
 	for i := 0; i < count; i++ {
 		mode := r.Intn(100)
 		switch {
@@ -184,14 +186,14 @@ func genSearchCases(r *Rng, count int, corpus map[string][]Seed) []*Case {
 				seeds = corpus["css"]
 			}
 			s := seeds[r.Intn(len(seeds))]
-			in, desc := Mutate(r, []byte(s.Text), seeds)
+			in, desc := MutateFor(r, []byte(s.Text), seeds, ld)
 			if r.Chance(12) {
 				ld = loaders[r.Intn(len(loaders))]
 			}
 			o := randOpts(r, ld)
 			if r.Chance(12) { // malformed tsconfig through TsconfigRaw
 				ts := corpus["tsconfig"]
-				m, _ := Mutate(r, []byte(ts[r.Intn(len(ts))].Text), ts)
+				m, _ := MutateFor(r, []byte(ts[r.Intn(len(ts))].Text), ts, "tsconfig")
 				o.TsconfigRaw = string(m)
 				desc += "+tsconfigRaw"
 			}
@@ -202,7 +204,7 @@ func genSearchCases(r *Rng, count int, corpus map[string][]Seed) []*Case {
 			s := seeds[r.Intn(len(seeds))]
 			in := []byte(s.Text)
 			if r.Chance(20) {
-				in, _ = Mutate(r, in, seeds)
+				in, _ = MutateFor(r, in, seeds, ld)
 			}
 			if r.Chance(40) { // several lines of generated code so that lookups fall before, inside and after the mappings
 				in = append([]byte("let a0 = 1;\nlet b0 = a0 + 2;\n"), in...)
@@ -217,13 +219,13 @@ func genSearchCases(r *Rng, count int, corpus map[string][]Seed) []*Case {
 			ld := r.Pick([]string{"js", "ts", "jsx", "tsx", "css", "json"})
 			seeds := corpus[ld]
 			s := seeds[r.Intn(len(seeds))]
-			mod, desc := Mutate(r, []byte(s.Text), seeds)
+			mod, desc := MutateFor(r, []byte(s.Text), seeds, ld)
 			ext := map[string]string{"js": ".js", "ts": ".ts", "jsx": ".jsx", "tsx": ".tsx", "css": ".css", "json": ".json"}[ld]
 			files["src/m"+ext] = mod
 			pk := corpus["pkgjson"]
-			pj, d2 := Mutate(r, []byte(pk[r.Intn(len(pk))].Text), pk)
+			pj, d2 := MutateFor(r, []byte(pk[r.Intn(len(pk))].Text), pk, "pkgjson")
 			tc := corpus["tsconfig"]
-			tj, d3 := Mutate(r, []byte(tc[r.Intn(len(tc))].Text), tc)
+			tj, d3 := MutateFor(r, []byte(tc[r.Intn(len(tc))].Text), tc, "tsconfig")
 			if r.Chance(70) {
 				files["node_modules/pkg/package.json"] = pj
 				files["node_modules/pkg/index.js"] = []byte("module.exports = 1")
